@@ -397,6 +397,12 @@ class SymSet:
 
     def _has(self, x):
         """x in self: True / False / SymBool"""
+        if type(x) is DigitChar:
+            if all(d in self.conc for d in "0123456789"):
+                return True
+            if not any(d in self.conc for d in "0123456789"):
+                return False
+            raise Unsupported("numeral digit in a partial digit set")
         if _hashable_concrete(x):
             if x in self.conc:
                 return True
@@ -421,10 +427,14 @@ class SymSet:
         return SymBool(conds[0] if len(conds) == 1 else z3.Or(*conds))
 
     def add(self, x):
+        if type(x) is DigitChar:
+            if not any(type(i) is DigitChar for i in self.sym):
+                self.sym.append(x)
+            return
         if _hashable_concrete(x):
             if x in self.conc:
                 return
-            if self.sym and _any_eq(x, self.sym):
+            if self.sym and _any_eq(x, [i for i in self.sym if type(i) is not DigitChar]):
                 return
             self.conc[x] = None
             self._runs = None
@@ -641,6 +651,13 @@ def sx_mkdict(keys, values):
     return d
 
 
+def sx_dictcomp(pairs):
+    d = SymDict()
+    for k, v in pairs:
+        d[k] = v
+    return d
+
+
 class SymRange:
     def __init__(self, *a):
         self.step = 1
@@ -731,13 +748,18 @@ class ReShim:
         parts.append(text[pos:b])
         return SymStr.mk(parts)
 
-    def _matches(self, pattern, string, flags, finder):
+    def _matches(self, pattern, string, flags, finder, existence_only=False):
         self._static_ok(pattern)
         rx = _re.compile(pattern, flags)
         sigs, first = [], None
         for text, spans in self._reps(string):
             ms = finder(rx, text)
-            sigs.append([tuple(self._sig(text, spans, *m.span(g)) for g in range(rx.groups + 1)) for m in ms])
+            if existence_only and rx.groups == 0:
+                # match()/search() of a group-free pattern: only whether it matches is structure; the matched text is
+                # sliced lazily (and refused then, if it would cut a numeral)
+                sigs.append([bool(ms)])
+            else:
+                sigs.append([tuple(self._sig(text, spans, *m.span(g)) for g in range(rx.groups + 1)) for m in ms])
             if first is None:
                 first = (text, spans, ms)
         if any(s != sigs[0] for s in sigs[1:]) or any("CUT" in str(s) for s in sigs[0]):
@@ -755,7 +777,8 @@ class ReShim:
         return out
 
     def _one(self, pattern, string, flags, how):
-        rx, (text, spans, ms) = self._matches(pattern, string, flags, lambda r, t: [m for m in [getattr(r, how)(t)] if m])
+        rx, (text, spans, ms) = self._matches(pattern, string, flags, lambda r, t: [m for m in [getattr(r, how)(t)] if m],
+                                              existence_only=True)
         return SymMatch(self, text, spans, ms[0]) if ms else None
 
     def match(self, pattern, string, flags=0):
@@ -818,5 +841,5 @@ def shim_table():
     return dict(
         int=sx_int, str=sx_str, len=sx_len, set=sx_set, range=sx_range, format=sx_format, sorted=sx_sorted,
         SX_fstring=sx_fstring, SX_pct=sx_pct, SX_join=sx_join, SX_hash=sx_hash, SX_contains=sx_contains,
-        SX_get=sx_get, SX_and=sx_and, SX_or=sx_or, SX_not=sx_not, SX_mkdict=sx_mkdict, SX_enter=sx_enter,
+        SX_get=sx_get, SX_and=sx_and, SX_or=sx_or, SX_not=sx_not, SX_mkdict=sx_mkdict, SX_enter=sx_enter, SX_dictcomp=sx_dictcomp,
     )
